@@ -1338,57 +1338,90 @@ def stream_clean(ctx, n):
 
 
 # ---- command line
+CLI_PLAN = [   # (designation, full, per-package output file?, packages, resolve)
+    ("name", False, False, 1, False),
+    ("relpath", True, True, 1, False),
+    ("abspath", False, True, 1, False),
+    ("submodule", True, False, 1, False),
+    ("name", True, False, 2, True),
+    ("submodule", False, True, 1, False),
+    ("relpath", False, False, 1, False),
+    ("abspath", True, False, 1, True),
+]
+
+
 def check_cli(ctx, n):
+    """`griffe dump` emits exactly {package: as_dict} for each requested package, however the package is designated
+    (bare name, relative path, absolute path, dotted submodule), in both modes, on stdout / -o file / -o '{package}' template,
+    and exits with status 0."""
+    import itertools
     import griffe
     env = dict(os.environ, PYTHONPATH=str(REPO / "src"), PYTHONHASHSEED="0")
-    for i in range(n):
-        root, name, files = write_package(ctx, ctx.rng, with_findings=False)
-        root2, name2, files2 = write_package(ctx, ctx.rng, with_findings=True)
-        (root / name2).parent.mkdir(exist_ok=True)
-        subprocess.run(["cp", "-r", str(root2 / name2), str(root / name2)], check=True)
-        full = bool(i % 2)
-        resolve = i % 3 == 2
-        outfile = ctx.scratch / f"dump{i}.json"
-        cmd = [sys.executable, "-m", "griffe", "dump", name, name2, "-s", str(root), "-o", str(outfile), "-X"] + (["-f"] if full else []) + (["-r"] if resolve else [])
+    plan = CLI_PLAN[:n] if n <= len(CLI_PLAN) else CLI_PLAN + [
+        (d, f, o, 1, False) for d, f, o in itertools.product(("name", "relpath", "abspath", "submodule"), (False, True), (False, True))][:n - len(CLI_PLAN)]
+    for i, (desig, full, per_package, npk, resolve) in enumerate(plan):
+        root, name, files = write_package(ctx, ctx.rng, with_findings=bool(i % 2))
+        names = [name]
+        all_files = {name: files}
+        if npk == 2:
+            root2, name2, files2 = write_package(ctx, ctx.rng, with_findings=True)
+            subprocess.run(["cp", "-r", str(root2 / name2), str(root / name2)], check=True)
+            names.append(name2)
+            all_files[name2] = files2
+        rel_root = os.path.relpath(root, ctx.scratch)
+        arg = {"name": lambda nm: nm, "relpath": lambda nm: os.path.join(rel_root, nm), "abspath": lambda nm: str(root / nm),
+               "submodule": lambda nm: nm + ".sub"}[desig]
+        outdir = ctx.scratch / f"cliout{i}"
+        outdir.mkdir()
+        cmd = [sys.executable, "-m", "griffe", "dump"] + [arg(nm) for nm in names] + ["-s", str(root), "-X", "-LCRITICAL"]
+        cmd += (["-f"] if full else []) + (["-r"] if resolve else [])
+        if per_package:
+            cmd += ["-o", str(outdir / "{package}.json")]
+        elif i % 3 == 1 or npk == 2:
+            cmd += ["-o", str(outdir / "all.json")]
         p = subprocess.run(cmd, capture_output=True, text=True, env=env, cwd=str(ctx.scratch), timeout=120)
-        case = {"cli": " ".join(cmd[2:]), "files": files, "files2": files2}
+        case = {"cli": " ".join(cmd[2:]), "designation": desig, "full": full, "per_package_output": per_package, "files": all_files[name]}
         ctx.case({"cli": cmd[3:], "full": full}, True)
         ctx.observe("stream", "cli")
-        if p.returncode != 0 or not outfile.exists():
-            ctx.property_failure(case, {"returncode": p.returncode, "stderr": p.stderr[-500:]})
+        ctx.observe("cli_form", f"{desig}/{'full' if full else 'min'}/{'per-package' if per_package else 'file' if '-o' in cmd else 'stdout'}")
+        if p.returncode != 0:
+            ctx.property_failure(dict(case, step="exit status"), {"returncode": p.returncode, "stdout": p.stdout[:200], "stderr": p.stderr[-400:]})
+            ctx.observe("outcome", "cli:nonzero-exit")
+        emitted = {}
+        try:
+            if per_package:
+                for nm in names:
+                    f = outdir / f"{nm}.json"
+                    if f.exists():
+                        emitted[nm] = json.loads(f.read_text())
+            elif "-o" in cmd:
+                emitted = json.loads((outdir / "all.json").read_text())
+            else:
+                emitted = json.loads(p.stdout)
+        except Exception as e:  # noqa: BLE001
+            ctx.property_failure(dict(case, step="output is not JSON"), {"error": str(e)[:200], "stdout": p.stdout[:200]})
             continue
-        got = json.loads(outfile.read_text())
-        if sorted(got) != sorted([name, name2]):
-            ctx.property_failure(case, {"dumped packages": sorted(got), "requested": sorted([name, name2])})
+        if sorted(emitted) != sorted(names):
+            ctx.property_failure(dict(case, step="emitted packages"), {"emitted": sorted(emitted), "requested": sorted(names), "returncode": p.returncode})
+            ctx.observe("outcome", "cli:wrong-packages")
             continue
         cwd = os.getcwd()
         os.chdir(ctx.scratch)       # relative_filepath depends on the working directory
         try:
             loader = griffe.GriffeLoader(search_paths=[str(root)], allow_inspection=False)
-            for nm in (name, name2):
+            for nm in names:
                 loader.load(nm)
             if resolve:
                 loader.resolve_aliases(implicit=False, external=None)
-            for nm in (name, name2):
+            for nm in names:
                 want = json.loads(loader.modules_collection.members[nm].as_json(full=full))
-                if got[nm] != want:
-                    ctx.property_failure(dict(case, package=nm), {"difference": _first_py_diff(want, got[nm])})
+                if emitted[nm] != want:
+                    ctx.property_failure(dict(case, package=nm, step="content"), {"difference": _first_py_diff(want, emitted[nm])})
                     ctx.observe("outcome", "cli:differs")
                 else:
                     ctx.observe("outcome", "cli:identical")
         finally:
             os.chdir(cwd)
-        # stdout form, minimal mode, one package
-        if i == 0:
-            p = subprocess.run([sys.executable, "-m", "griffe", "dump", name, "-s", str(root), "-X"], capture_output=True, text=True, env=env,
-                               cwd=str(ctx.scratch), timeout=120)
-            want = json.loads(griffe.load(name, search_paths=[str(root)], allow_inspection=False).as_json())
-            try:
-                ok = json.loads(p.stdout) == {name: want}
-            except Exception:  # noqa: BLE001
-                ok = False
-            if not ok:
-                ctx.property_failure(dict(case, form="stdout"), {"stdout": p.stdout[:300], "stderr": p.stderr[-300:]})
 
 
 def _first_py_diff(a, b, path="$"):
@@ -1472,7 +1505,7 @@ def explore(ctx):
     for i in range(6):
         docs.append(build_clean_doc(ctx.rng, i))
     stream_damaged(ctx, docs, ctx.budget(800, 8000))
-    check_cli(ctx, ctx.budget(3, 8))
+    check_cli(ctx, ctx.budget(6, 24))
     # every expression dataclass of the (regenerated) table must have been exercised: the model's rule for
     # `iterate(flat=False)` is generic, a class the generators never produce would go unvalidated
     table = {n for n in dir(griffe) if n.startswith("Expr") and n != "Expr" and isinstance(getattr(griffe, n), type)}
